@@ -80,7 +80,9 @@ def run_rule(name: str, repo) -> RuleResult:
 # note, not as exit 2 - when every rule of the other side completed: the obligation was decided. Violations always stand.
 COVER = [
     ({"LICM-SOUND"}, {"PASS-EQUIV"}),
-    ({"EXPR-LAYOUT"}, {"GEN-EXPR"}),
+    ({"EXPR-LAYOUT"}, {"GEN-EXPR", "GEN-EXPRESSION-IR"}),
+    ({"PREFIX-OFFSETS"}, {"GEN-INTEGRAL-IR", "GEN-EXPRESSION-IR"}),
+    ({"RULE-ENTITY-TAG"}, {"QRULE-GROUP"}),
     ({"BOUND-SAMESRC"}, {"GEN-BLOCKS", "GEN-DEFS", "GEN-EXPR"}),
     ({"RULE-COHERENCE"}, {"GEN-KERNEL"}),
     ({"PERM-FLAG-IMPL"}, {"GEN-INTEGRAL-DRIVER"}),
@@ -143,7 +145,9 @@ DEMOTE = {
     "RULE-COHERENCE": ({"GEN-KERNEL"}, lambda key: True),
     "PERM-FLAG-IMPL": ({"GEN-INTEGRAL-DRIVER"}, lambda key: True),
     "EXPR-COEF-POS": ({"GEN-EXPRESSION-IR", "ANALYZE-OBJECTS"}, lambda key: True),
-    "EXPR-LAYOUT": ({"GEN-EXPR"}, lambda key: any(t in key for t in (":multi-index-count", ":index-roles:", ":factor-of-component"))),
+    "EXPR-LAYOUT": ({"GEN-EXPR", "GEN-EXPRESSION-IR"}, lambda key: True),
+    "PREFIX-OFFSETS": ({"GEN-INTEGRAL-IR", "GEN-EXPRESSION-IR"}, lambda key: True),
+    "RULE-ENTITY-TAG": ({"QRULE-GROUP"}, lambda key: True),
 }
 
 
